@@ -380,8 +380,9 @@ class Evaluator:
             names = [e.args[1]] if isinstance(e.args[1], ast.Name) else list(e.args[1].elts) if isinstance(e.args[1], ast.Tuple) else None
             if names and all(isinstance(n, ast.Name) and n.id in tys for n in names):
                 v = self.ev(e.args[0])
-                if not isinstance(v, Obj):
-                    return isinstance(v, tuple(tys[n.id] for n in names))
+                if isinstance(v, Obj):
+                    return False  # a model object is none of the builtin types
+                return isinstance(v, tuple(tys[n.id] for n in names))
             raise Unsupported(e)
         if isinstance(e, ast.Call) and isinstance(e.func, ast.Attribute) and e.func.attr == "join" and len(e.args) == 1 and not e.keywords \
                 and ast.unparse(e.func.value) in ("b''", "bytes()", "bytearray()", "''"):
